@@ -248,12 +248,19 @@ def setup_command_line_parsers(progname, fhelpers):
                          dest='output_format',
                          action='store_const',
                          const='latex')
+    class _SeedAction(argparse.Action):
+        # seed as soon as the option is parsed: random graph arguments
+        # are generated during parsing and must depend on the seed too.
+        def __call__(self, parser, args, values, option_string=None):
+            setattr(args, self.dest, values)
+            random.seed(values)
+
     parser.add_argument('--seed',
                         '-S',
                         metavar="<seed>",
                         default=None,
                         type=int,
-                        action='store')
+                        action=_SeedAction)
     g = parser.add_mutually_exclusive_group()
     g.add_argument('--verbose',
                    '-v',
